@@ -25,8 +25,8 @@ model checking:
                BRunAgrees, BShape, BAccepts (no error <=> grammar), BRoundTrip (Render(Parse(D)) = D),
                BFinalBlank, BErrorLine (number = first line where the grammar fails, kind by its class,
                output = paragraphs completed before, later lines irrelevant).
-           big: uniform files of 1000 / 32769 paragraphs, 257 fields, 1000 / 32767 continuation lines
-               with an error placed after line 65536 (BigInvariant).
+           big: uniform files of 1000 paragraphs, 257 fields, 1000 continuation lines, errors at the last
+               lines (thorough: 32769 paragraphs / 32767 continuation lines, an error after line 65536).
            calls: 3 files (two identical paragraphs; 'record' error after a yielded paragraph; 'field'
                error inside the first paragraph), <= 2 readers, <= 4 lists: closed LTS.
            Spec-level negative controls (each must make TLC report the named invariant):
@@ -63,10 +63,17 @@ verdict observables: the sequence of yielded paragraphs (each a list of (str, st
            'expected package field' otherwise) / .filename (the name given to the constructor) / print_out()
            text, no other exception type; a new list object per paragraph; lists not touched by the caller
            never change.
+characters: L = [A-Za-z], D = [0-9], H = '-' '_'; X = printable ASCII punctuation, latin-1 letters, and the hazards of
+           notes/SIZE_STRESS.md part 2 (combining marks, ANGSTROM / OHM / KELVIN SIGN, ligature, full-width A, Hangul
+           jamo, dotless / dotted i, long s, Deseret, U+FEFF, ZWJ / ZWNJ / ZWSP, soft hyphen, bidi marks, U+1F600,
+           U+10FFFF, Arabic-Indic digits): none of them is a name character, all of them are kept code point by
+           code point (results are compared with slices of the input, never normalised); NBSP, U+2003, U+3000,
+           NEL, U+2028 strictly inside a value (ordinary text there).
 unspecified (executed, only an exception other than ParseError / UnicodeDecodeError is recorded, as drift):
            one-character names; a white-space-only last line without newline; " ." followed by blanks; white
-           space other than blank / tab (CR VT FF FS GS RS US NEL NBSP U+2000..) anywhere in a line; bytes
-           that are not valid in the reader's encoding; iterating one reader twice.
+           space other than blank / tab (CR VT FF FS GS RS US NEL NBSP U+2000..) at the beginning or end of a
+           line or of a value (the regular expressions strip \\s there); bytes that are not valid in the reader's
+           encoding; iterating one reader twice.
 """
 import io
 import json
@@ -99,7 +106,8 @@ EXTRA = dict(
         "kind or buffering of the file object, on a final blank line or final newline, on any length or count, on "
         "other readers alive or advanced in between, or on what the caller does to lists yielded earlier. "
         "Unspecified: one-character names, a white-space-only last line without newline, ' .' followed by blanks, "
-        "white space other than blank/tab inside a line, undecodable bytes, re-iterating a reader."),
+        "white space other than blank/tab at the beginning or end of a line or value (inside a value it is ordinary text), "
+        "undecodable bytes, re-iterating a reader."),
     technique=(
         "TLA+ specs PackageFile (character-run classifier for re_field / re_continuation / the blank test; reader "
         "automaton with one action per branch of __iter__; grammar WF and inverse Render), PackageFileCalls (live "
@@ -126,14 +134,26 @@ NEG_CALLS = [("SharedPkg", "TRUE", "PROPERTY NoSpontaneousChange", "NoSpontaneou
 # ------------------------------------------------------------------ characters
 _LET = "ABCDEFGHIJKLMNOPQRSTUVWXYZabcdefghijklmnopqrstuvwxyz"
 _XA = list("!\"#$%&'()*+,/;<=>?@[\\]^`{|}~")
-_XL1 = list("éàßå·Å×¿")                # latin-1 (utf-8 bytes contain 0x85 / 0xa0)
-_XU = list("ą中ΩЖあ…٣ＡÅª") + ["\U0001f600", "\U0001d518"]
+_XL1 = list("\u00e9\u00e0\u00df\u00e5\u00b7\u00c5\u00d7\u00bf\u00ad\u00aa")     # latin-1 (utf-8 bytes contain 0x85 / 0xa0); soft hyphen
+# notes/SIZE_STRESS.md part 2: not NFC/NFKC-stable (combining marks, ANGSTROM / OHM / KELVIN SIGN, compatibility
+# ideograph, ligature, full-width A, Hangul jamo), case-mapping hazards (dotted / dotless i, long s, final sigma,
+# Deseret), U+FEFF, zero-width (non-)joiner / space, bidi marks, non-BMP up to U+10FFFF, non-ASCII digits
+_XU = (list("\u0105\u4e2d\u03a9\u0416\u3042\u2026\u0663\uff21")
+       + ["\u0301", "\u0308", "\u212b", "\u2126", "\u212a", "\uf9d0", "\ufb01", "\u1100", "\u1161", "\u0130", "\u0131",
+          "\u017f", "\u03c2", "\U00010400", "\ufeff", "\u200d", "\u200c", "\u200b", "\u200e", "\u200f", "\U0001f600",
+          "\U0010ffff", "\U0001d518"])
 POOL = {"L": list(_LET), "D": list("0123456789"), "H": list("-_"), "C": [":"], "S": [" ", " ", "\t"], "P": ["."],
         "X": {"ascii": _XA, "latin1": _XA + _XL1 * 2, "uni": _XA + _XL1 + _XU * 2}}
+# white space that is not the format's (\s of the regular expressions matches it): ordinary text INSIDE a value,
+# unspecified at its ends -- only ever placed strictly inside a run of X characters
+INNER_WS = {"ascii": [], "latin1": ["\u00a0", "\u0085"], "uni": ["\u00a0", "\u2003", "\u3000", "\u0085", "\u2028"]}
 CANON = {"L": "a", "D": "1", "H": "-", "C": ":", "S": " ", "P": ".", "X": "+"}
 for _m, _p in POOL["X"].items():
     for _ch in _p:
-        assert not _ch.isspace() and _ch not in _LET and _ch not in "0123456789-_:.", repr(_ch)
+        assert len(_ch) == 1 and not _ch.isspace() and _ch not in _LET and _ch not in "0123456789-_:.", repr(_ch)
+for _m, _p in INNER_WS.items():
+    for _ch in _p:
+        assert _ch.isspace() and _ch not in " \t\n"
 
 NAME_LEN = [33, 32, 31, 64, 65, 129, 257, 300, 63, 128, 256, 17, 16, 73, 81, 127, 255, 15, 9, 72, 1025, 2, 7, 8, 1024, 1023]
 LINE_LEN = [4096, 8193, 1025, 257, 129, 4097, 8192, 65, 1024, 4095, 80, 33, 8191, 1023, 72,
@@ -151,10 +171,14 @@ def chars(rng, c, n, mode):
     if len(pool) == 1:
         return pool[0] * n
     if n <= 200:
-        return "".join(rng.choice(pool) for _ in range(n))
-    m = rng.randint(23, 61)
-    chunk = "".join(rng.choice(pool) for _ in range(m))
-    return (chunk * (n // m + 1))[:n]
+        s = [rng.choice(pool) for _ in range(n)]
+    else:
+        m = rng.randint(23, 61)
+        s = list(("".join(rng.choice(pool) for _ in range(m)) * (n // m + 1))[:n])
+    if c == "X" and n >= 3 and INNER_WS[mode] and rng.random() < 0.3:
+        for _ in range(1 if n < 50 else 5):
+            s[rng.randrange(1, n - 1)] = rng.choice(INNER_WS[mode])
+    return "".join(s)
 
 
 def conc(rs, rng, mode):
@@ -730,12 +754,14 @@ def replay_files(ctx, cases, lib, quick, stats, big=False):
             if m:
                 msgs.append((f2, " + final blank line", m))
         # the lists of the previous case are still alive: they must still be what they were
+        leak = None
         if prev is not None:
             now = [proj_para(o) for o in prev[0]]
             if now != prev[1]:
-                msgs.append((f1, "", "paragraphs of the previous file %r changed while this one was read: %s, were %s"
-                             % (prev[2][:300], brief(now), brief(prev[1]))))
-        prev = (keep2, want["out"], text)
+                leak = prev
+                msgs.insert(0, (f1, "", "paragraphs of the previous file %r [%s] changed while this one was read: %s, were %s"
+                                % (prev[2][:300], prev[3], brief(now), brief(prev[1]))))
+        prev = (keep2, want["out"], text, f2)
         ctx.evaluations += 2
         stats["files:" + case["err"]["kind"]] = stats.get("files:" + case["err"]["kind"], 0) + 1
         stats["max_lines"] = max(stats.get("max_lines", 0), len(lines))
@@ -750,6 +776,10 @@ def replay_files(ctx, cases, lib, quick, stats, big=False):
             nviol += 1
             if nviol <= 3:
                 small = len(text) <= 20000
+                if leak is not None and small and len(leak[2]) <= 20000:
+                    ctx.violation({"kind": "keepalive", "text": text, "form": form, "prev_text": leak[2], "prev_form": leak[3],
+                                   "prev_out": leak[1]}, "file %s [%s]: %s" % (brief(text, 400), form, m))
+                    continue
                 ctx.violation({"kind": "file", "text": text if small else None, "form": form, "want": want if small else None,
                                "leg": "big" if big else "files", "abstract": lines if small else case.get("dims")},
                               "file %s [%s]%s: %s" % (brief(text, 400), form, what, m))
@@ -884,8 +914,25 @@ STATIC_CONTROLS = [
 ]
 
 
+def corrupted(traces):
+    """corrupted copies of recorded traces (wrong line number / last paragraph dropped / a text changed)"""
+    out = []
+    for tr in traces:
+        if len(out) >= 6 or not tr["lines"] or len(tr["lines"]) > 40:
+            continue
+        f = tr["final"]
+        if f["err"]["kind"] != "none":
+            out.append(dict(tr, final={"out": f["out"], "err": {"kind": f["err"]["kind"], "lineno": f["err"]["lineno"] + 1}}))
+        elif f["out"]:
+            out.append(dict(tr, final={"out": f["out"][:-1], "err": f["err"]}))
+            p = [dict(x) for x in f["out"][-1]]
+            p[0] = {"k": p[0]["k"], "v": [p[0]["v"][0] + "x"] + p[0]["v"][1:]}
+            out.append(dict(tr, final={"out": f["out"][:-1] + [p], "err": f["err"]}))
+    return out
+
+
 def validate(ctx, traces, with_controls=True):
-    controls = STATIC_CONTROLS if with_controls else []
+    controls = STATIC_CONTROLS + corrupted(traces) if with_controls else []
     acc, _, _ = core.validate_traces(ctx, "TracePackageFile", "TracePackageFile.cfg", traces,
                                      extra_env={"TRACE_DIAG": "0"}, controls=controls)
     rejected = [i for i in range(1, len(traces) + 1) if i not in acc]
@@ -1113,7 +1160,7 @@ def run(ctx):
     ctx.extra["extra"] = {"id": "X01", "title": EXTRA["title"], "statement": EXTRA["statement"]}
     ctx.assumptions += [
         "bounded: every line of <= %d characters over 7 character classes; every file of <= %d lines over 6 line classes; calls: 3 files, <= 2 readers, <= 4 lists" % (maxlen, maxlines),
-        "payload characters are sampled (seeded): ASCII / latin-1 / other Unicode, never white space other than blank and tab inside a line",
+        "payload characters are sampled (seeded): ASCII / latin-1 / other Unicode incl. the hazards of SIZE_STRESS part 2; white space other than blank and tab only strictly inside a value",
         "unspecified (executed, diagnostic only): one-character names, unterminated white-space-only last line, ' .' followed by blanks, other white space, undecodable bytes, re-iteration",
         "trusted: TLC, the run-to-character concretizer (a run of class c is n characters of class c), the projection value.split('\\n')",
     ]
@@ -1124,18 +1171,20 @@ def run(ctx):
 
     # 1. design level, concurrently
     jobs = [
-        dict(name="lines", module="PackageFile", cfg=cfg_text("PackageFile_lines.cfg", MaxLen=str(maxlen)), workers=3 if quick else 4,
+        dict(name="lines", module="PackageFile", cfg=cfg_text("PackageFile_lines.cfg", MaxLen=str(maxlen)), workers=3 if quick else 2,
              tags={"CASE", "CTX"}),
-        dict(name="files", module="PackageFile", cfg=cfg_text("PackageFile_files.cfg", MaxLines=str(maxlines)), workers=2 if quick else 3,
+        dict(name="files", module="PackageFile", cfg=cfg_text("PackageFile_files.cfg", MaxLines=str(maxlines)), workers=2,
              tags={"CASE"}),
         dict(name="big", module="PackageFile", cfg="PackageFile_big.cfg", workers=2, tags={"CASE"}, java_opts=["-Xss256m"]),
-        # (the file of 65540 lines -- an error beyond line 65536 -- costs TLC 6 s: thorough tier only)
-        dict(name="big2", module="PackageFile", cfg=cfg_text("PackageFile_big.cfg", BigSel="{13}" if quick else "{13, 14}"), workers=2,
+        # (32767 continuation lines; 65540 lines with the error beyond line 65536: 10 s of TLC and of replay, thorough tier only)
+        dict(name="big2", module="PackageFile", cfg=cfg_text("PackageFile_big.cfg", BigSel="{}" if quick else "{13, 14}"), workers=2,
              tags={"CASE"}, java_opts=["-Xss256m"]),
         dict(name="calls", module="PackageFileCalls", cfg="PackageFileCalls.cfg", workers=2, tags={"EDGE", "DOCS"}),
     ]
-    if not quick:
-        jobs.append(dict(name="lines7", module="PackageFile", workers=4, tags=set(),
+    if quick:
+        jobs = [j for j in jobs if j["name"] != "big2"]
+    if not quick:         # (the longest job first: 4 + 2 + 2 workers at a time)
+        jobs.insert(0, dict(name="lines7", module="PackageFile", workers=4, tags=set(),
                          cfg=only_inv(cfg_text("PackageFile_lines.cfg", MaxLen="7", Emit="FALSE"), ["INVARIANT EShape", "INVARIANT ERunAgrees", "INVARIANT EPad"])))
     negs = []
     for const, val, inv in NEG_LINES:
@@ -1157,7 +1206,7 @@ def run(ctx):
         return core.run_tlc(j["module"], j["cfg"], ctx.work, workers=j["workers"], want_tags=j["tags"], timeout=timeout,
                             java_opts=jo)
 
-    with ThreadPoolExecutor(max_workers=3 if quick else 2) as ex:
+    with ThreadPoolExecutor(max_workers=3) as ex:
         futs = [ex.submit(one, j) for j in jobs]
         f_lib = ex.submit(classify_library, ctx, tpls)
         results = [f.result() for f in futs]
@@ -1188,9 +1237,10 @@ def run(ctx):
     if len(fcases) != res["files"].distinct:
         raise core.MachineryError("files: %d CASE lines for %d states" % (len(fcases), res["files"].distinct))
     fcases.sort(key=lambda c: (c["n"], skey(c["lines"])))
-    bcases = [c for n in ("big", "big2") for c in res[n].printed.get("CASE", []) if isinstance(c, dict)]
-    if 2 * len(bcases) != res["big"].distinct + res["big2"].distinct:
-        raise core.MachineryError("big: %d CASE lines for %d states" % (len(bcases), res["big"].distinct + res["big2"].distinct))
+    bigs = [n for n in ("big", "big2") if n in res]
+    bcases = [c for n in bigs for c in res[n].printed.get("CASE", []) if isinstance(c, dict)]
+    if 2 * len(bcases) != sum(res[n].distinct for n in bigs):
+        raise core.MachineryError("big: %d CASE lines for %d states" % (len(bcases), sum(res[n].distinct for n in bigs)))
     bcases.sort(key=lambda c: c["n"])
     ctx.extra["model"] = {
         "lines(all class strings)": res["lines"].distinct, "MaxLen": maxlen,
@@ -1319,6 +1369,14 @@ def replay(ctx, case):
         if case.get("text") is None:
             return "large generated file: re-run the check (the case was too large to store)"
         return check_text(case["text"], case["form"], case["want"], ctx.work)
+    if case["kind"] == "keepalive":
+        keep = []
+        read_all(case["prev_form"], case["prev_text"], ctx.work, None, keep)
+        read_all(case["form"], case["text"], ctx.work)
+        now = [proj_para(o) for o in keep]
+        if now != case["prev_out"]:
+            return "lists yielded for %r changed afterwards: %s, were %s" % (case["prev_text"][:300], brief(now), brief(case["prev_out"]))
+        return None
     if case["kind"] == "calls":
         fmap = {tuple(k): tuple(v) for k, v in case["fmap"]}
         cmap = {k: v for k, v in case["cmap"]}
